@@ -5,6 +5,7 @@ import Driver.Stream
 import Driver.Conn
 import Driver.Mpart
 import Driver.Own
+import Driver.CFun
 
 namespace Driver
 
@@ -34,6 +35,7 @@ def step (s : St) (line : String) : St × String :=
   | "bstr" :: rest => (s, bstrOp rest)
   | "num" :: rest => (s, numOp rest)
   | "fn" :: rest => (s, fnOp rest)
+  | "cfun" :: rest => (s, cfunOp rest)
   | "urlenc" :: rest => (s, urlencOp rest)
   | "mpart" :: rest => (s, mpartOp rest)
   | "own" :: rest => (s, ownOp rest)
